@@ -1,6 +1,7 @@
 package keeper
 
 import (
+	sdk "github.com/cosmos/cosmos-sdk/types"
 	codectypes "github.com/cosmos/cosmos-sdk/codec/types"
 	paramtypes "github.com/cosmos/cosmos-sdk/x/params/types"
 
@@ -51,7 +52,7 @@ func VerifC01ReceiptsSurviveClientLifecycle() {
 	case 3:
 		err = k.UpdateClient(ctx, chain, &lcHeader{H: types.Height{RevisionNumber: rt.U64("hdr.rev"), RevisionHeight: rt.U64("hdr.height")}})
 	case 4:
-		k.RegisterRelayers(ctx, rt.Str("relayer"), []string{chain}, []string{rt.Str("relayer.counterparty")})
+		k.RegisterRelayers(ctx, sdk.AccAddress(rt.BytesN("relayer", 20)).String(), []string{chain}, []string{rt.Str("relayer.counterparty")}) // a registered relayer has a bech32 address
 	}
 	if err != nil {
 		return // rolled back as a whole
